@@ -19,6 +19,7 @@
 EXTENDS Integers, Sequences, FiniteSets, TLC, Json, IOUtils
 
 CONSTANTS MaxTx, MaxCalls, MaxAvail, AutoDestroy, CbFail, FixD4, TraceMode,
+          Gaps,          \* model checking: may a data call announce a stream gap (data = NULL, len > 0)?
           Known          \* set of <<clause, site>> pairs excused as known findings (generated from known_findings.txt)
 
 VARIABLES P, prog, cur, avail, calls, obs, l
@@ -48,25 +49,27 @@ ReqCodings == {"nobody", "ident0", "ident", "chunked", "invalid"}
 Statuses == {"100", "101", "2xx", "407", "4xx"}
 
 NewPTx == [rp |-> NOTSTARTED, sp |-> NOTSTARTED, m |-> "UNK", p09 |-> FALSE, rc |-> "unk",
-          st |-> "none", sc |-> "unk", dec |-> "unk", qdec |-> "none", live |-> TRUE, c100 |-> 0]
+          st |-> "none", sc |-> "unk", dec |-> "unk", qdec |-> "none", live |-> TRUE, c100 |-> 0, qfin |-> FALSE]
 
 InitP == [in_state |-> "REQ_IDLE", out_state |-> "RES_IDLE", in_status |-> "OPEN", out_status |-> "OPEN",
           txs |-> <<>>, in_tx |-> 0, out_tx |-> 0, onti |-> 0, odoate |-> FALSE,
           in_recv |-> "none", out_recv |-> "none", in_buf |-> FALSE, out_buf |-> FALSE,
           in_prev |-> "REQ_IDLE", out_prev |-> "RES_IDLE",
-          pipelined |-> FALSE, lastq |-> "none", lasts |-> "none", cl |-> 0, used |-> 0, pend |-> 0]
+          pipelined |-> FALSE, lastq |-> "none", lasts |-> "none", cl |-> 0, used |-> 0, pend |-> 0, gap |-> FALSE]
 
 TxLive(p, i) == i > 0 /\ i <= Len(p.txs) /\ p.txs[i].live
 IsComplete(p, i) == p.txs[i].rp = COMPLETE /\ p.txs[i].sp = COMPLETE
 
 (* ---------------- events for the observers ---------------- *)
-EvName(n) == CASE n \in {"request_body_end", "request_body_junk"} -> "request_body_data"
-               [] n \in {"response_body_end", "response_body_junk"} -> "response_body_data"
+EvName(n) == CASE n \in {"request_body_end", "request_body_junk", "request_body_gap"} -> "request_body_data"
+               [] n \in {"response_body_end", "response_body_junk", "response_body_gap"} -> "response_body_data"
                [] OTHER -> n
 IsEndName(n) == n \in {"request_body_end", "response_body_end"}
+\* a stream gap inside an identity body reaches the body callbacks as NULL data with the length of the gap
+IsGapName(n) == n \in {"request_body_gap", "response_body_gap"}
 CbEv(p, n, i, res) ==
   [e |-> "Cb", n |-> EvName(n), tx |-> i - 1, rp |-> p.txs[i].rp, sp |-> p.txs[i].sp, len |-> IF IsEndName(n) THEN 0 ELSE 1,
-   nul |-> IsEndName(n), ret |-> res, act |-> "none", c100 |-> p.txs[i].c100,
+   nul |-> IsEndName(n) \/ IsGapName(n), ret |-> res, act |-> "none", c100 |-> p.txs[i].c100,
    mn |-> IF p.txs[i].m = "CONNECT" THEN 6 ELSE 2, st |-> 0, m |-> TRUE,
    uri |-> <<>>, xid |-> <<>>, el |-> 0, ml |-> 0, dl |-> -1, tc |-> 0, ce |-> 0, wl |-> -1, xl |-> -1]
 TpEv(id, i) == [e |-> "TP", id |-> id, tx |-> i - 1]
@@ -83,7 +86,7 @@ Cb(n, i, f)   == [op |-> "cb", n |-> n, tx |-> i, f |-> f]        \* f \in {"pro
 Cbs(n, i, f)  == [op |-> "cbs", n |-> n, tx |-> i, f |-> f, k |-> 0]  \* zero or more callbacks (decompressor)
 \* values of different types travel in differently named fields, so that TLC never has to compare a boolean with a string when it
 \* normalises a set of outcomes
-BoolFld == {"in_buf", "out_buf", "odoate", "p09"}
+BoolFld == {"in_buf", "out_buf", "odoate", "p09", "qfin"}
 IntFld == {"in_tx", "out_tx", "onti", "rp", "sp"}
 Set(fld, v)   == IF fld \in BoolFld THEN [op |-> "set", fld |-> fld, b |-> v]
                  ELSE IF fld \in IntFld THEN [op |-> "set", fld |-> fld, n |-> v] ELSE [op |-> "set", fld |-> fld, v |-> v]
@@ -109,22 +112,30 @@ HasReqBody(p, i) == p.txs[i].rc \in {"ident0", "ident", "chunked"}
 \* request body data through htp_tx_req_process_body_data_ex: plain -> one callback whose failure is ERROR; with a request decompressor
 \* (htp_config_set_request_decompression, off by default: explored in trace mode only) -> zero or more callbacks whose failures are swallowed
 ReqDecompPossible == TraceMode
-ReqBody(p, i, n) == CASE p.txs[i].qdec = "active" -> <<Cbs(n, i, "ign")>>
+\* under a gap the decompressor takes the NULL data for the end of the stream (htp_gzip_decompressor_decompress: "d->data == NULL"): it
+\* flushes, passes the end marker on and is destroyed (htp_tx_re[qs]_process_body_data_ex: "if (data == NULL)"); body data after the gap then
+\* finds no decompressor and fails
+ReqBody(p, i, n) == CASE p.txs[i].qdec = "active" -> IF p.gap THEN <<Cbs("request_body_data", i, "ign"), Cbs("request_body_end", i, "ign"), SetTx(i, "qdec", "gone")>>
+                                                      ELSE <<Cbs(n, i, "ign")>>
                       [] p.txs[i].qdec = "gone" -> <<Ret("ERROR")>>
-                      [] OTHER -> <<Cb(n, i, "err")>>
+                      \* a body processor of the transaction (urlencoded, multipart) takes NULL data for the end as well: qfin, see SilentRefusal
+                      [] OTHER -> IF p.gap THEN <<Cb("request_body_gap", i, "err"), SetTx(i, "qfin", TRUE)>> ELSE <<Cb(n, i, "err")>>
 ReqBodyEnd(p, i) == CASE p.txs[i].qdec = "active" -> <<Cbs("request_body_data", i, "ign"), Cbs("request_body_end", i, "ign"), SetTx(i, "qdec", "gone")>>
                       [] p.txs[i].qdec = "gone" -> <<Ret("ERROR")>>
                       [] OTHER -> <<Cb("request_body_end", i, "err")>>
 
 \* body data through htp_tx_res_process_body_data_ex: plain -> one callback whose failure is ERROR;
 \* with a decompressor -> zero or more callbacks whose failures are swallowed
-ResBody(p, i) == CASE p.txs[i].dec = "active" -> <<Cbs("response_body_data", i, "ign")>>
+ResBody(p, i) == CASE p.txs[i].dec = "active" -> IF p.gap THEN <<Cbs("response_body_data", i, "ign"), Cbs("response_body_end", i, "ign"), SetTx(i, "dec", "gone")>>
+                                                  ELSE <<Cbs("response_body_data", i, "ign")>>
                    [] p.txs[i].dec \in {"gone", "unk"} -> <<Ret("ERROR")>>   \* out_decompressor == NULL / processing UNKNOWN
-                   [] OTHER -> <<Cb("response_body_data", i, "err")>>
+                   [] OTHER -> <<Cb(IF p.gap THEN "response_body_gap" ELSE "response_body_data", i, "err")>>
 \* the NULL call: flushes and destroys the decompressor, or delivers the marker
 ResBodyEnd(p, i, f) == CASE p.txs[i].dec = "active" -> <<Cbs("response_body_data", i, "ign"), Cbs("response_body_end", i, "ign"), SetTx(i, "dec", "gone")>>
                          [] p.txs[i].dec \in {"gone", "unk"} -> IF f = "ign" THEN <<>> ELSE <<Ret("ERROR")>>
                          [] OTHER -> <<Cb("response_body_end", i, f)>>
+\* the end-of-body call that follows body data within the same state function: a gap has just cost the decompressor its life
+ResBodyEndAfter(p, i, f) == IF p.gap /\ p.txs[i].dec = "active" THEN <<Ret("ERROR")>> ELSE ResBodyEnd(p, i, f)
 
 \* htp_tx_state_request_complete(tx)
 ReqCompleteProg(p, i) ==
@@ -288,7 +299,7 @@ ResOutcomes(p) ==
          IF closed THEN {O(0, <<SetOut("RES_FINALIZE")>> \o ResBodyEnd(p, i, "err") \o <<Ret("OK")>>)}
          ELSE IF avail = 0 THEN {O(0, <<Ret("DATA")>>)}
          ELSE {O(0, ResBody(p, i) \o <<Use(avail), Ret("DATA")>>)}
-              \cup {O(0, ResBody(p, i) \o <<Use(u), SetOut("RES_FINALIZE")>> \o ResBodyEnd(p, i, "err") \o <<Ret("OK")>>) : u \in UB(1, avail)}
+              \cup {O(0, ResBody(p, i) \o <<Use(u), SetOut("RES_FINALIZE")>> \o ResBodyEndAfter(p, i, "err") \o <<Ret("OK")>>) : u \in UB(1, avail)}
     [] p.out_state = "RES_BODY_IDENTITY_STREAM_CLOSE" ->
          IF closed THEN {O(0, (IF avail > 0 THEN ResBody(p, i) \o <<Use(avail)>> ELSE <<>>) \o <<SetOut("RES_FINALIZE"), Ret("OK")>>)}
          ELSE IF avail = 0 THEN {O(0, <<Ret("DATA")>>)}
@@ -403,8 +414,9 @@ DataEnterFrom(pb, d, n) ==
         ELSE IF pb.out_status = "TUNNEL" THEN /\ prog' = <<EndCall("TUNNEL", FALSE)>> /\ avail' = 0 /\ P' = pb
         ELSE /\ avail' = n /\ prog' = <<>> /\ P' = [pb EXCEPT !.used = 0]
 
-DataEnter(d, n) == /\ P.cl = 0 /\ DataEnterFrom([P EXCEPT !.used = 0], d, n)
-                   /\ obs' = OStep(obs, CallEv(d, "data", n))
+\* g: the call announces a gap (data = NULL, len = n > 0): same preliminaries; the driver loop then lets only a few states run
+DataEnter(d, n, g) == /\ P.cl = 0 /\ DataEnterFrom([P EXCEPT !.used = 0, !.gap = g], d, n)
+                      /\ obs' = OStep(obs, CallEv(d, IF g THEN "gap" ELSE "data", n))
 
 \* htp_connp_close: status overwrite; the two (NULL,0) runs follow as DataEnter(d, 0)
 CloseMark ==
@@ -416,7 +428,7 @@ CloseMark ==
   /\ UNCHANGED <<prog, cur, avail, calls>>
 \* the two inner (NULL,0) runs of htp_connp_close
 CloseEnter == /\ cur = "none" /\ P.cl \in {1, 2}
-              /\ DataEnterFrom([P EXCEPT !.cl = @ + 1], IF P.cl = 1 THEN "req" ELSE "res", 0)
+              /\ DataEnterFrom([P EXCEPT !.cl = @ + 1, !.gap = FALSE], IF P.cl = 1 THEN "req" ELSE "res", 0)
               /\ UNCHANGED obs
 
 \* deferred consumption reached while running a micro-program is taken from the chunk when the step settles
@@ -428,9 +440,20 @@ LineStatesS == {"RES_LINE", "RES_HEADERS", "RES_BODY_CHUNKED_LENGTH", "RES_FINAL
 OverLimit(p) == IF avail = 0 THEN {}
                 ELSE IF cur = "req" THEN (IF p.in_buf /\ p.in_state \in LineStatesQ THEN {O(u, <<Ret("ERROR")>>) : u \in U(1, avail)} ELSE {})
                 ELSE (IF p.out_buf /\ p.out_state \in LineStatesS THEN {O(u, <<Ret("ERROR")>>) : u \in U(1, avail)} ELSE {})
+\* "handle gap" in the two driver loops: only the identity body states (and the data-ignoring state) run on a gap; the FINALIZE states are
+\* replaced by the completion of the transaction without probing; every other state refuses the gap and the call returns CLOSED
+GapOutcomes(p) ==
+  IF cur = "req" THEN
+     (IF p.in_state \in {"REQ_BODY_IDENTITY", "REQ_IGNORE_DATA_AFTER_HTTP_0_9"} THEN ReqOutcomes(p)
+      ELSE IF p.in_state = "REQ_FINALIZE" THEN {O(0, ReqCompleteProg(p, p.in_tx) \o <<Ret("OK")>>)}
+      ELSE {O(0, <<Ret("DECLINED")>>)})
+  ELSE
+     (IF p.out_state \in {"RES_BODY_IDENTITY_CL_KNOWN", "RES_BODY_IDENTITY_STREAM_CLOSE"} THEN ResOutcomes(p)
+      ELSE IF p.out_state = "RES_FINALIZE" THEN {O(0, ResCompleteProg(p, p.out_tx) \o <<Ret("OK")>>)}
+      ELSE {O(0, <<Ret("DECLINED")>>)})
 StepBegin ==
   /\ cur # "none" /\ prog = <<>>
-  /\ \E o \in ((IF cur = "req" THEN ReqOutcomes(P) ELSE ResOutcomes(P)) \cup OverLimit(P)) :
+  /\ \E o \in (IF P.gap THEN GapOutcomes(P) ELSE (IF cur = "req" THEN ReqOutcomes(P) ELSE ResOutcomes(P)) \cup OverLimit(P)) :
         /\ o.use <= avail
         /\ LET r == Run([P EXCEPT !.used = @ + o.use], o.prog, obs) IN
              /\ P' = Settle(r.P) /\ prog' = r.prog /\ obs' = r.obs /\ avail' = avail - o.use - r.P.pend
@@ -469,6 +492,14 @@ SilentHookFail ==
        P' = Settle(r.P) /\ prog' = r.prog /\ obs' = r.obs /\ avail' = avail - r.P.pend
   /\ UNCHANGED <<cur, calls>>
 
+\* after a gap inside the request body a body processor of the transaction (a transaction-level hook, invisible here) has finalised; it refuses
+\* every later body call - data or end marker - before a configured hook sees it, and the request stream fails
+SilentRefusal ==
+  /\ cur # "none" /\ prog # <<>> /\ Head(prog).op = "cb" /\ Head(prog).f = "err" /\ EvName(Head(prog).n) = "request_body_data"
+  /\ P.txs[Head(prog).tx].qfin
+  /\ prog' = <<Ret("ERROR")>>
+  /\ UNCHANGED <<P, cur, avail, calls, obs>>
+
 StreamOf(rc) == CASE rc \in {"DATA", "DATA_BUFFER"} -> "DATA"
                   [] rc = "DATA_OTHER" -> IF avail = 0 THEN "DATA" ELSE "DATA_OTHER"
                   [] rc = "STOP" -> "STOP"
@@ -503,6 +534,7 @@ RetStep ==
         IN /\ \E overlimit \in (IF v = "DATA_BUFFER" THEN {FALSE, TRUE} ELSE {FALSE}) :
                 prog' = (IF rc # "none" /\ t # 0 THEN <<Cb(nm, t, "ign")>> ELSE <<>>) \o <<EndCall(IF overlimit THEN "ERROR" ELSE StreamOf(v), TRUE)>>
            /\ UNCHANGED <<P, obs>>
+     ELSE IF v = "DECLINED" THEN /\ prog' = <<EndCall("CLOSED", FALSE)>> /\ UNCHANGED <<P, obs>>    \* "Gaps are not allowed during this state": stream status untouched
      ELSE /\ prog' = <<EndCall(StreamOf(v), TRUE)>> /\ UNCHANGED <<P, obs>>
   /\ UNCHANGED <<cur, avail, calls>>
 
@@ -516,15 +548,15 @@ EndCallStep ==
   /\ UNCHANGED calls
 
 AllHooks == {"request_start", "request_uri_normalize", "request_line", "request_header_data", "request_headers",
-             "request_body_data", "request_body_end", "request_body_junk", "request_trailer_data", "request_trailer",
+             "request_body_data", "request_body_end", "request_body_junk", "request_body_gap", "request_trailer_data", "request_trailer",
              "request_complete", "response_start", "response_line", "response_header_data", "response_headers",
-             "response_body_data", "response_body_end", "response_body_junk", "response_trailer_data",
+             "response_body_data", "response_body_end", "response_body_junk", "response_body_gap", "response_trailer_data",
              "response_trailer", "response_complete", "transaction_complete"}
 
 Next ==
   \/ /\ ~TraceMode
      /\ UNCHANGED l
-     /\ \/ \E d \in {"req", "res"}, n \in 1..MaxAvail : DataEnter(d, n)
+     /\ \/ \E d \in {"req", "res"}, n \in 1..MaxAvail, g \in (IF Gaps THEN BOOLEAN ELSE {FALSE}) : DataEnter(d, n, g)
         \/ CloseMark
         \/ CloseEnter
         \/ (P.cl = 3 /\ cur = "none" /\ P' = [P EXCEPT !.cl = 4] /\ obs' = OStep(obs, RetEv(P, "both", "-", 0))
@@ -533,6 +565,7 @@ Next ==
         \/ \E nm \in AllHooks : CbStep(nm)
         \/ CbsDone
         \/ SilentHookFail
+        \/ SilentRefusal
         \/ RetStep
         \/ EndCallStep
 
@@ -541,12 +574,12 @@ Spec == Init /\ [][Next]_vars
 (* ---------------- trace binding ---------------- *)
 Line == TraceLog[l]
 HasLine == l <= Len(TraceLog)
-CbNames(ev) == IF ev.n = "request_body_data" THEN (IF ev.nul THEN {"request_body_end"} ELSE {"request_body_data", "request_body_junk"})
-               ELSE IF ev.n = "response_body_data" THEN (IF ev.nul THEN {"response_body_end"} ELSE {"response_body_data", "response_body_junk"})
+CbNames(ev) == IF ev.n = "request_body_data" THEN (IF ev.nul THEN (IF ev.len > 0 THEN {"request_body_gap"} ELSE {"request_body_end"}) ELSE {"request_body_data", "request_body_junk"})
+               ELSE IF ev.n = "response_body_data" THEN (IF ev.nul THEN (IF ev.len > 0 THEN {"response_body_gap"} ELSE {"response_body_end"}) ELSE {"response_body_data", "response_body_junk"})
                ELSE {ev.n}
 TReset == /\ HasLine /\ Line.e = "Reset"
           /\ P' = InitP /\ prog' = <<>> /\ cur' = "none" /\ avail' = 0 /\ calls' = 0 /\ obs' = ObsInitM /\ l' = l + 1
-TCall == /\ HasLine /\ Line.e = "Call" /\ Line.k = "data" /\ DataEnter(Line.d, Line.len) /\ l' = l + 1
+TCall == /\ HasLine /\ Line.e = "Call" /\ Line.k \in {"data", "gap"} /\ DataEnter(Line.d, Line.len, Line.k = "gap") /\ l' = l + 1
 TClose == /\ HasLine /\ Line.e = "Call" /\ Line.k = "close" /\ CloseMark /\ l' = l + 1
 TSB == /\ HasLine /\ Line.e = "SB"
        /\ (IF Line.d = "req" THEN cur = "req" /\ P.in_state = Line.s ELSE cur = "res" /\ P.out_state = Line.s)
@@ -557,6 +590,7 @@ TCb == /\ HasLine /\ Line.e = "Cb" /\ prog # <<>> /\ Head(prog).op \in {"cb", "c
        /\ CbStep(Head(prog).n) /\ l' = l + 1
 TCbsDone == CbsDone /\ l' = l
 TSilentHookFail == SilentHookFail /\ l' = l
+TSilentRefusal == SilentRefusal /\ l' = l
 TTP == /\ HasLine /\ Line.e = "TP" /\ l' = l + 1 /\ UNCHANGED <<P, prog, cur, avail, calls, obs>>
 TSE == /\ HasLine /\ Line.e = "SE" /\ prog # <<>> /\ Head(prog).op = "ret" /\ Head(prog).v = Line.rc
        /\ (IF Line.d = "req" THEN P.in_state = Line.s2 ELSE P.out_state = Line.s2)
@@ -577,7 +611,7 @@ TRet == /\ HasLine /\ Line.e = "Ret" /\ prog # <<>> /\ Head(prog).op = "endcall"
 \* records that carry no parser step (connection open, final dump, end of execution, teardown)
 \* and the file-data callbacks of the body processors (multipart / PUT), which are not steps of the connection parser
 TSkip == /\ HasLine /\ (Line.e \in {"Open", "Final", "End", "Destroy", "Fault"} \/ (Line.e = "Cb" /\ Line.n = "request_file_data")) /\ l' = l + 1 /\ UNCHANGED <<P, prog, cur, avail, calls, obs>>
-TNext == TSkip \/ TReset \/ TCall \/ TClose \/ TCloseEnter \/ TInnerEnd \/ TRetClose \/ TSB \/ TCb \/ TCbsDone \/ TSilentHookFail \/ TTP \/ TSE \/ TRet
+TNext == TSkip \/ TReset \/ TCall \/ TClose \/ TCloseEnter \/ TInnerEnd \/ TRetClose \/ TSB \/ TCb \/ TCbsDone \/ TSilentHookFail \/ TSilentRefusal \/ TTP \/ TSE \/ TRet
 TSpec == Init /\ [][TNext]_vars
 NotAccepted == l <= Len(TraceLog)
 ASSUME TLCSet(1, 0)
